@@ -267,7 +267,10 @@ class Replayer:
         with warnings.catch_warnings():
             warnings.simplefilter("ignore")
             try:
-                if kind == "data":
+                if kind == "data" and self.n_edges % 2:
+                    # the mapping form of import_data (label -> dataset) obeys the same flags
+                    proj.import_data({"item": dataset(float(version))}, allow_overwrite=allow, ignore_existing=ign)
+                elif kind == "data":
                     proj.import_data(dataset(float(version)), dataset_name="item", allow_overwrite=allow, ignore_existing=ign)
                 elif kind == "model":
                     proj.generate_model("item", "decay_parallel", {"nr_compartments": version, "irf": False}, allow_overwrite=allow, ignore_existing=ign)
